@@ -322,7 +322,11 @@ impl<S: BuildHasher + Clone + 'static> SampledLFU<S> {
     /// get the remain space of SampledLRU
     #[inline]
     pub fn room_left(&self, cost: i64) -> i64 {
-        self.get_max_cost() - (self.used + cost)
+        // a total beyond i64::MAX can never fit; do not let the sum wrap around
+        match self.used.checked_add(cost) {
+            Some(total) => self.get_max_cost().saturating_sub(total),
+            None => i64::MIN,
+        }
     }
 
     /// try to fill the SampledLFU by the given pairs.
@@ -393,7 +397,7 @@ impl<S: BuildHasher + Clone + 'static> SampledLFU<S> {
                     }
                 }
 
-                self.used += cost - prev_val;
+                self.used = self.used.saturating_add(cost - prev_val);
                 *prev = cost;
                 true
             }
